@@ -300,7 +300,10 @@ def mk_cdiag(draw, cfg, dom, m, n, batch, depth):
 
 @maker("Identity", lambda c, d, m, n, b, comp, sq, nb: sq)
 def mk_identity(draw, cfg, dom, m, n, batch, depth):
-    return {"op": "Identity", "n": n, "batch": list(batch), "dt": cfg.dt}
+    r = {"op": "Identity", "n": n, "batch": list(batch), "dt": cfg.dt}
+    if cfg.dt == "f32" and draw(st.booleans()):
+        r["nodt"] = True  # built without the dtype argument (its default is float32)
+    return r
 
 
 # (the zero matrix is PSD, but the class explicitly declares "ZeroLinearOperators are not positive definite"
